@@ -94,6 +94,7 @@ def check_log(ctx, sess, case, what):
 def run(ctx, model):
     from props import kernels
     kernels.run_plan(ctx, model, "C04")
+    run_spill(ctx, model)
     rng = ctx.rng
     windows = []
     for C in (500, 4000):
@@ -182,6 +183,76 @@ def run(ctx, model):
                 if len(ctx.samples) < 3:
                     ctx.sample({"case": case, "read": [lx.tag_summary(t) for t in res[:2]]})
                 sess.close()
+
+
+def run_spill(ctx, model):
+    """one read()/write() call of several mid-size tags that spills over more than one multi-service packet:
+    every packet and every solicited reply must respect the connection size, every value must arrive"""
+    rng = ctx.rng
+    n = ctx.budget(40, 400)
+    for i in range(n):
+        C = rng.choice([500, 500, 4000])
+        k = rng.choice([2, 3, 4, 5, 6, 8, 12])
+        # sizes chosen so that k-1 or k of them fill one packet almost exactly
+        per = max(1, (C - rng.choice([10, 16, 24, 40])) // rng.choice([max(1, k - 1), k, 2, 3]) - rng.choice([0, 2, 8, 12, 14, 20]))
+        sizes = [max(1, per + rng.choice([0, 0, 0, -1, 1, -2, 2])) for _ in range(k)]
+        if rng.random() < 0.3:
+            sizes.append(rng.choice([1, 4, 30]))
+        names = ["%s%d" % (rng.choice(["a", "tag_", "quite_a_long_tag_name_"]), j) for j in range(len(sizes))]
+        p = sized_project(rng, list(zip(sizes, names)), reads=rng.choice([[], [], [37]]))
+        sess = lx.Session(model, p, conn_large=(C == 4000))
+        if sess.open_error is not None:
+            ctx.count("open-failed")
+            sess.close()
+            continue
+        tags = ["%s{%d}" % (nm, sz) if sz > 1 else nm for sz, nm in zip(sizes, names)]
+        case = {"connection_size": C, "tag_bytes": sizes, "tags": tags, "index": i}
+        sess.log()
+        try:
+            res = core.with_budget(120, sess.d.read, *tags)
+        except BaseException as e:  # noqa
+            if isinstance(e, (KeyboardInterrupt, SystemExit)):
+                raise
+            ctx.violation("read-raises:" + core.exn_class(e), case, repr(e)[:300])
+            sess.close()
+            continue
+        res = res if isinstance(res, list) else [res]
+        ctx.case("spill-read", ("sr", C, tuple(sizes)))
+        ctx.count("spill/%d-tags" % len(sizes))
+        for t, got in zip(tags, res):
+            sym = lx._find_symbol(p, t.split("{")[0])
+            cnt = int(t.split("{")[1][:-1]) if "{" in t else 1
+            want = lg.ref_elements(sym.kind, sym.typ, bytes(sym.mem), 0, cnt)
+            want = want if "{" in t else want[0]
+            if not got:
+                ctx.violation("tag-not-readable-in-multi-packet-call", dict(case, failing=t), "falsy: %s" % lx.tag_summary(got))
+            elif not oracle_eq(want, got.value):
+                ctx.violation("read-wrong-value-in-multi-packet-call", dict(case, failing=t), "value differs")
+        check_log(ctx, sess, dict(case, op="read"), "read")
+        vals = [(t, [rng.randrange(-128, 128) for _ in range(sz)] if sz > 1 else rng.randrange(-128, 128)) for t, sz in zip(tags, sizes)]
+        try:
+            wres = core.with_budget(120, sess.d.write, *vals)
+        except BaseException as e:  # noqa
+            if isinstance(e, (KeyboardInterrupt, SystemExit)):
+                raise
+            ctx.violation("write-raises:" + core.exn_class(e), case, repr(e)[:300])
+            sess.close()
+            continue
+        wres = wres if isinstance(wres, list) else [wres]
+        ctx.case("spill-write", ("sw", C, tuple(sizes)))
+        mem, writes = sess.mem()
+        for (t, v), got in zip(vals, wres):
+            sym = lx._find_symbol(p, t.split("{")[0])
+            if not got:
+                ctx.violation("tag-not-writable-in-multi-packet-call", dict(case, failing=t), "falsy: %s" % lx.tag_summary(got))
+                continue
+            cnt = int(t.split("{")[1][:-1]) if "{" in t else 1
+            now = lg.ref_elements(sym.kind, sym.typ, mem[(None, sym.inst)], 0, cnt)
+            now = now if "{" in t else now[0]
+            if not oracle_eq(v, now):
+                ctx.violation("write-not-stored-in-multi-packet-call", dict(case, failing=t), "memory differs from the written value")
+        check_log(ctx, sess, dict(case, op="write"), "write")
+        sess.close()
 
 
 def replay(ctx, model, data):
